@@ -771,99 +771,234 @@ def outer(key_func):
             memo[obj] = v = key_func(obj)
             return v
     return get
+
+_tokens = {}
+def get_token(token_class: type[Tok], parser: Parser) -> Tok:
+    try:
+        return _tokens[token_class]
+    except KeyError:
+        tok = _tokens[token_class] = token_class(parser)
+        return tok
 """
-STR_ANNOTATIONS = ('str', 'Optional[str]', 'str | None', 'None | str')
+VALUE_ANNOTATIONS = ('Any', 'object', 'ItemType', 'AtomicType', 'ValueType', 'NumericType',
+                     'AnyAtomicType', 'float', 'Decimal', 'Hashable', 'ArithmeticType')
 
 
-def argument_keyed_memos(fnode: ast.AST) -> list[tuple[str, str, str, ast.AST]]:
-    """(container, parameter, annotation, store node) for every container that is not a local of
-    the function and is both read and written at a key built from a parameter."""
+class Memo:
+    def __init__(self, container: str, key: ast.AST, read: ast.AST, store: ast.AST,
+                 value: Optional[ast.AST]) -> None:
+        self.container, self.key, self.read, self.store, self.value = \
+            container, key, read, store, value
+
+
+def argument_keyed_memos(fnode: ast.AST) -> tuple[list[Memo], dict[str, str], dict[str, set[str]]]:
+    """The memo idiom in one function: a container that is not a local of the function is read
+    at a key built from the parameters, the value read flows to a return/yield, and the
+    container is written at the same key. Returns the memos, the parameter annotations and,
+    for every local, the parameter-rooted dotted names it is computed from."""
     from ..engine.srcmodel import walk_local
     a = fnode.args
     params = {p_.arg: (stmt_text(p_.annotation) if p_.annotation is not None else '')
               for p_ in a.posonlyargs + a.args + a.kwonlyargs if p_.arg not in ('self', 'cls')}
     if not params:
-        return []
+        return [], params, {}
     local: set[str] = set()
+    assigns: list[tuple[list[str], ast.AST]] = []
     for x in walk_local(fnode):
-        if isinstance(x, (ast.Assign, ast.AnnAssign, ast.AugAssign)):
-            for t0 in (x.targets if isinstance(x, ast.Assign) else [x.target]):
+        if isinstance(x, (ast.Assign, ast.AnnAssign, ast.AugAssign, ast.NamedExpr)):
+            tg = x.targets if isinstance(x, ast.Assign) else [x.target]
+            names: list[str] = []
+            for t0 in tg:
                 if isinstance(t0, ast.Name):
-                    local.add(t0.id)
+                    names.append(t0.id)
                 elif isinstance(t0, (ast.Tuple, ast.List)):
-                    local |= {t.id for t in t0.elts if isinstance(t, ast.Name)}
-    local -= set(params)  # a parameter reassigned is still the caller's value or derived from it
-    stores: dict[str, dict[str, ast.AST]] = {}
-    loads: dict[str, set[str]] = {}
+                    names += [t.id for t in t0.elts if isinstance(t, ast.Name)]
+            local |= set(names)
+            if getattr(x, 'value', None) is not None:
+                assigns.append((names, x.value))
+        elif isinstance(x, (ast.For, ast.comprehension)):
+            names = [t.id for t in ast.walk(x.target) if isinstance(t, ast.Name)]
+            local |= set(names)
+            assigns.append((names, x.iter))
+    local -= set(params)
+
+    def atoms(e: ast.AST) -> set[str]:
+        """maximal dotted names rooted at a parameter or a local, in e"""
+        out: set[str] = set()
+
+        def visit(n: ast.AST) -> None:
+            if isinstance(n, (ast.Attribute, ast.Name)):
+                d = dotted(n)
+                if d and d.split('.')[0] in set(params) | local:
+                    out.add(d)
+                    return
+            for c in ast.iter_child_nodes(n):
+                visit(c)
+        visit(e)
+        return out
+
+    deps: dict[str, set[str]] = {v: set() for v in local}
+    for _ in range(4):
+        for names, val in assigns:
+            got: set[str] = set()
+            for d in atoms(val):
+                root = d.split('.')[0]
+                if root in params:
+                    got.add(d)
+                else:
+                    got |= deps.get(root, set())
+            for nm in names:
+                if nm in deps:
+                    deps[nm] |= got
+
+    def key_ok(k: ast.AST) -> bool:
+        return any(d.split('.')[0] in params or deps.get(d.split('.')[0]) for d in atoms(k))
+
+    flows: set[int] = set()        # ids of expressions whose value is returned / yielded
+    returned_locals: set[str] = set()
+    for x in walk_local(fnode):
+        if isinstance(x, (ast.Return, ast.Yield, ast.YieldFrom)) and x.value is not None:
+            for y in ast.walk(x.value):
+                flows.add(id(y))
+                if isinstance(y, ast.Name) and y.id in local:
+                    returned_locals.add(y.id)
+    for names, val in assigns:
+        if set(names) & returned_locals:
+            for y in ast.walk(val):
+                flows.add(id(y))
+    reads: dict[tuple[str, str], ast.AST] = {}
+    stores: dict[tuple[str, str], tuple[ast.AST, Optional[ast.AST]]] = {}
+    parent = {id(c): p_ for p_ in ast.walk(fnode) for c in ast.iter_child_nodes(p_)}
     for x in walk_local(fnode):
         if isinstance(x, ast.Subscript) and isinstance(x.value, (ast.Name, ast.Attribute)):
             d = dotted(x.value)
-            hit = {y.id for y in ast.walk(x.slice) if isinstance(y, ast.Name)} & set(params)
-            if not d or d in local or d in params or not hit:
+            if not d or d.split('.')[0] in local or d.split('.')[0] in params \
+                    or not key_ok(x.slice):
                 continue
+            k = (d, stmt_text(x.slice))
             if isinstance(x.ctx, ast.Store):
-                for h in hit:
-                    stores.setdefault(d, {}).setdefault(h, x)
-            elif isinstance(x.ctx, ast.Load):
-                loads.setdefault(d, set()).update(hit)
+                par = parent.get(id(x))
+                val = getattr(par, 'value', None) if isinstance(
+                    par, (ast.Assign, ast.AnnAssign)) else None
+                stores.setdefault(k, (x, val))
+            elif isinstance(x.ctx, ast.Load) and id(x) in flows:
+                reads.setdefault(k, x)
         elif isinstance(x, ast.Call) and isinstance(x.func, ast.Attribute) and x.args \
-                and x.func.attr in ('get', 'setdefault', '__contains__'):
+                and x.func.attr in ('get', 'setdefault'):
             d = dotted(x.func.value)
-            hit = {y.id for y in ast.walk(x.args[0]) if isinstance(y, ast.Name)} & set(params)
-            if d and d not in local and d not in params and hit:
-                loads.setdefault(d, set()).update(hit)
-                if x.func.attr == 'setdefault':
-                    for h in hit:
-                        stores.setdefault(d, {}).setdefault(h, x)
-        elif isinstance(x, ast.Compare) and len(x.ops) == 1 \
-                and isinstance(x.ops[0], (ast.In, ast.NotIn)):
-            d = dotted(x.comparators[0])
-            hit = {y.id for y in ast.walk(x.left) if isinstance(y, ast.Name)} & set(params)
-            if d and d not in local and d not in params and hit:
-                loads.setdefault(d, set()).update(hit)
+            if not d or d.split('.')[0] in local or d.split('.')[0] in params \
+                    or not key_ok(x.args[0]):
+                continue
+            k = (d, stmt_text(x.args[0]))
+            if id(x) in flows:
+                reads.setdefault(k, x)
+            if x.func.attr == 'setdefault':
+                stores.setdefault(k, (x, x.args[1] if len(x.args) > 1 else None))
     out = []
-    for d in sorted(set(stores) & set(loads)):
-        for p_ in sorted(set(stores[d]) & loads[d]):
-            out.append((d, p_, params[p_], stores[d][p_]))
+    for k in sorted(set(reads) & set(stores)):
+        rd = reads[k]
+        key = rd.slice if isinstance(rd, ast.Subscript) else rd.args[0]
+        out.append(Memo(k[0], key, rd, stores[k][0], stores[k][1]))
+    return out, params, deps
+
+
+def memo_verdicts(fnode: ast.AST) -> list[tuple[Memo, str, str]]:
+    """(memo, clause, explanation) for every memo of the function that is unsound; clause is
+    'domain' or 'completeness'."""
+    memos, params, deps = argument_keyed_memos(fnode)
+    out = []
+    for m in memos:
+        key_atoms: set[str] = set()
+        for y in ast.walk(m.key):
+            if isinstance(y, (ast.Name, ast.Attribute)):
+                d = dotted(y)
+                if d and d.split('.')[0] in params:
+                    key_atoms.add(d)
+                elif isinstance(y, ast.Name) and y.id in deps:
+                    key_atoms |= deps[y.id]     # a key built in a local
+        key_atoms = {d for d in key_atoms if not any(o != d and o.startswith(d + '.')
+                                                    for o in key_atoms)} or key_atoms
+        for d in sorted(key_atoms):
+            ann = params.get(d, None)
+            if ann is None:
+                continue        # an attribute of a parameter, not the parameter itself
+            core = ann.replace('Optional[', '').rstrip(']').split('.')[-1]
+            if core in VALUE_ANNOTATIONS or ann == '':
+                out.append((m, 'domain',
+                            f'`{m.container}` outlives the call, is read at the argument `{d}: '
+                            f'{ann or "unannotated"}` for the result and written at the same key: '
+                            f'a memo keyed by Python equality of an XPath value; values that are '
+                            f'equal for Python and distinct for XPath (1, 1.0, true(); 0.0, -0.0) '
+                            f'share one slot, so the second receives the result of the first'))
+        if m.value is not None:
+            used: set[str] = set()
+            for y in ast.walk(m.value):
+                if isinstance(y, (ast.Name, ast.Attribute)):
+                    d = dotted(y)
+                    if not d:
+                        continue
+                    root = d.split('.')[0]
+                    if root in params:
+                        used.add(d)
+                    elif root in deps and isinstance(y, ast.Name):
+                        used |= deps[root]
+            # keep maximal paths only (p.a.b covers its prefix mentions p.a)
+            missing = sorted(u for u in used
+                             if not any(u == k_ or u.startswith(k_ + '.') for k_ in key_atoms))
+            if missing:
+                out.append((m, 'completeness',
+                            f'`{m.container}[{stmt_text(m.key)[:30]}]` is returned to later calls '
+                            f'but what is stored there is computed from {", ".join(missing[:3])}, '
+                            f'which the key does not include: a call with the same key and a '
+                            f'different {missing[0].split(".")[0]} receives the value of the '
+                            f'earlier call'))
     return out
 
 
 def r05_10(ctx, counts) -> RuleResult:
-    """a hand-written memo keyed by an argument is only sound for strings"""
+    """a hand-written memo is keyed by everything its value depends on, and not by XPath values"""
     model = ctx.model
     res = RuleResult(
         'R05.10', 'ARGUMENT-KEYED-MEMO',
-        'The hand-written form of R05.7: a function (or closure) that looks its own argument up in '
-        'a dictionary which outlives the call (a variable of the enclosing function, a module or '
-        'class attribute) and stores under the same argument what it computed is a memo keyed '
-        'by Python equality of that argument. XPath items that are equal for Python are distinct '
-        'for XPath (1 / 1.0 / true(), 0.0 / -0.0, "1" as xs:untypedAtomic / xs:string subclasses), '
-        'so the second of two such items receives what was computed for the first: fn:sort with '
-        'a memoised key function orders (1.0, 1) by the key of one of them. Such a memo is '
-        'accepted only when the parameter is annotated str (or Optional[str]).')
-    sample = [n_ for n_ in ast.walk(ast.parse(MEMO_SAMPLE))
-              if isinstance(n_, ast.FunctionDef) and n_.name == 'get'][0]
-    if [(d, p_) for d, p_, _, _ in argument_keyed_memos(sample)] != [('memo', 'obj')]:
-        raise AnalysisError('R05.10: the memo idiom is not recognised in the built-in sample')
+        'The hand-written form of R05.7. A function (or closure) that reads a container which '
+        'outlives the call (a variable of the enclosing function, a module or class attribute) at '
+        'a key built from its parameters, returns or yields what it read, and writes the '
+        'container at the same key is a memo. (a) KEY-DOMAIN: the key is not a parameter that '
+        'holds an XPath value (annotated Any, ItemType, AtomicType, float, Decimal, ...): Python '
+        'equality conflates 1 / 1.0 / true() and 0.0 / -0.0, so the second of two such items '
+        'receives what was computed for the first (fn:sort with a memoised key function). '
+        '(b) KEY-COMPLETENESS: every parameter, or attribute path of a parameter, that the '
+        'stored value is computed from (through the locals of the function) is covered by the '
+        'key: a token built with `parser` and cached under its class alone, prototypes of an XSD '
+        'type cached under `xsd_type.name`, serve later calls with the value of another parser / '
+        'another schema.')
+    tree = ast.parse(MEMO_SAMPLE)
+    sget = [n_ for n_ in ast.walk(tree) if isinstance(n_, ast.FunctionDef) and n_.name == 'get'][0]
+    stok = [n_ for n_ in ast.walk(tree)
+            if isinstance(n_, ast.FunctionDef) and n_.name == 'get_token'][0]
+    if [c for _, c, _ in memo_verdicts(sget)] != ['domain'] or \
+            [c for _, c, _ in memo_verdicts(stok)] != ['completeness']:
+        raise AnalysisError('R05.10: the memo idioms of the built-in samples are not recognised')
     n = nm = 0
     for f in sorted(model.all_functions(), key=lambda q: q.key):
         if not f.module.name.startswith('elementpath') or '.validators' in f.module.name:
             continue
         n += 1
-        for d, p_, ann, node in argument_keyed_memos(f.node):
+        memos, params, _ = argument_keyed_memos(f.node)
+        if not memos:
+            continue
+        verdicts = memo_verdicts(f.node)
+        for m in memos:
             nm += 1
-            ok = ann in STR_ANNOTATIONS
-            res.instances.append(f'{f.key}: `{d}` read and written at the parameter `{p_}: '
-                                 f'{ann or "unannotated"}`: {"string key" if ok else "NOT a string"}')
-            if ok:
+            bad = [(c, why) for mm, c, why in verdicts
+                   if mm.container == m.container and stmt_text(mm.key) == stmt_text(m.key)]
+            res.instances.append(f'{f.key}: memo `{m.container}[{stmt_text(m.key)[:30]}]`: '
+                                 f'{"sound key" if not bad else "/".join(c for c, _ in bad)}')
+            if not bad:
                 res.ok()
-            else:
-                res.fail(finding('R05.10', f, node, f'memo {d}[{p_}]',
-                                 f'`{d}` outlives the call and is read and written at the argument '
-                                 f'`{p_}: {ann or "unannotated"}`: a memo keyed by Python equality '
-                                 f'of an XPath item: items that are equal for Python and distinct '
-                                 f'for XPath (1, 1.0, true(); 0.0, -0.0) share one slot, so the '
-                                 f'second receives the result computed for the first'))
+            for c, why in bad:
+                res.fail(finding('R05.10', f, m.store,
+                                 f'memo {m.container}[{stmt_text(m.key)[:20]}] {c}', why))
     counts['functions_scanned_for_memos'] = n
     counts['argument_keyed_memos'] = nm
     if n < 1300:
